@@ -95,6 +95,22 @@ pub fn run_stacks<T: Cat + DecodeLimit>(ctx: &mut Ctx, name: &str, bs: &[u8], se
 		let r = T::decode(&mut io);
 		(r, io.0.pos)
 	}))));
+	rec("io-bufreader(3)", outcome::<T>(catch_unwind(AssertUnwindSafe(|| {
+		let mut io = IoReader(std::io::BufReader::with_capacity(3, ShortReader { data: bs, pos: 0, rng: Rng::new(seed ^ 5) }));
+		let r = T::decode(&mut io);
+		// consumed = what left the buffer: delivered by the inner reader minus what is still buffered
+		let consumed = io.0.get_ref().pos - io.0.buffer().len();
+		(r, consumed)
+	}))));
+	rec("io-chain", outcome::<T>(catch_unwind(AssertUnwindSafe(|| {
+		use std::io::Read;
+		let cut = len / 3;
+		let mut io = IoReader(std::io::Cursor::new(&bs[..cut]).chain(std::io::BufReader::with_capacity(5, std::io::Cursor::new(&bs[cut..]))));
+		let r = T::decode(&mut io);
+		let (a, b) = io.0.get_ref();
+		let consumed = a.position() as usize + (b.get_ref().position() as usize - b.buffer().len());
+		(r, consumed)
+	}))));
 	rec("unknown-len", outcome::<T>(catch_unwind(AssertUnwindSafe(|| {
 		let mut u = UnknownLen { data: bs, pos: 0 };
 		let r = T::decode(&mut u);
